@@ -115,6 +115,16 @@ def XPL(rows):
     return -ys[-1] / us[-1] if us[-1] != 0 else float('inf')
 
 
+def pupil_degenerate(rows):
+    """Entrance pupil at infinity (telecentric), absurdly far, or on a finite object plane: the marginal / chief ray
+    definitions divide by (EPL - z_object); such states are outside any paraxial statement."""
+    e = EPL(rows)
+    if not math.isfinite(e) or abs(e) > 1e6:
+        return True
+    z0 = rows[0]['z']
+    return math.isfinite(z0) and abs(e - z0) < 1e-9 * max(1.0, abs(z0))
+
+
 def EPD(rows, ap, f2_for_fno=None):
     kind, val = ap
     if kind == 'EPD':
